@@ -17,7 +17,7 @@ vars == <<phase, pt>>
 NoR == <<0, 0, 0, "">>
 NoStop == <<<<0, 0>>, <<0, 0>>, <<0, 0>>>>
 Base == [envb |-> 0, envx |-> <<>>, wd |-> "", rin |-> NoR, rout |-> NoR, rerr |-> NoR, parent |-> 0, discard |-> 0,
-         file |-> 0, path |-> "", stop |-> NoStop, dl |-> 0, input |-> <<-1, 0>>, nb |-> 0]
+         file |-> 0, path |-> "", stop |-> NoStop, dl |-> 0, input |-> <<-1, 0>>, nb |-> 0, tmo |-> 0]   \* (tmo: the C++-only `timeout` member - it has no C counterpart and reaches no C option)
 
 \* every field with pairwise distinguishable values
 Variations ==
@@ -30,6 +30,7 @@ Variations ==
   \cup {[Base EXCEPT !.stop = <<<<a, 11>>, <<(a + 1) % 4, 22>>, <<(a + 2) % 4, 33>>>>] : a \in 0..3}
   \cup {[Base EXCEPT !.stop = <<<<1, -1>>, <<2, -2>>, <<3, 0>>>>]}
   \cup {[Base EXCEPT !.dl = d] : d \in {7, 1000000}}
+  \cup {[Base EXCEPT !.tmo = 300], [Base EXCEPT !.tmo = 300, !.dl = 7]}
   \cup {[Base EXCEPT !.input = i] : i \in {<<0, 0>>, <<1, 5>>, <<4, 9>>}}
   \cup {[Base EXCEPT !.rin = <<1, 0, 0, "">>, !.input = <<2, 3>>, !.nb = 1, !.dl = 5, !.envb = 1, !.wd = "/w", !.parent = 0, !.discard = 1]}
 
@@ -59,6 +60,12 @@ NullArgPoints ==
     exp |-> [c |-> [MapOptions(Base, FALSE, "none", <<>>) EXCEPT !.argvnull = 1], res |-> MapResult(0, r)]] :
      op \in {"start", "clone_start"}, r \in {-22, 1}}
 
+\* a start the C layer refuses, then another start on the same process object: the second call reaches the C layer like the first
+\* (the C handle is still there and not started)
+RestartPoints ==
+  {[op |-> "restart", o |-> Base, args |-> <<"p">>, argmode |-> "vec", envmode |-> "none", ret |-> 1, ret1 |-> r1,
+    exp |-> [c |-> MapOptions(Base, FALSE, "none", <<"p">>), res |-> MapResult(0, 1), first |-> MapResult(0, r1), ncalls |-> 2]] : r1 \in {-22, -2, -12}}
+
 Rets == {-22, -32, -110, -12, -11, -5, -4, -2, 0, 1, 7, 143}   \* (-4: an interrupted call is reported like any other error, once, not retried)
 MethodPoints ==
   {[op |-> "method", m |-> "pid", ret |-> r, exp |-> [last |-> "pid", res |-> MapResult(r, r)]] : r \in Rets}
@@ -78,12 +85,13 @@ MethodPoints ==
 
 ConstPoints == {[op |-> "consts", exp |-> [same |-> 1]]}
 
-Points == StartPoints \cup NullArgPoints \cup MethodPoints \cup ConstPoints
+Points == StartPoints \cup NullArgPoints \cup RestartPoints \cup MethodPoints \cup ConstPoints
 
 Init == phase = "pick" /\ pt \in Points
 Next == phase = "pick" /\ phase' = "done" /\ UNCHANGED pt /\ PrintT(<<"BEH", ToJson(pt)>>)
 Spec == Init /\ [][Next]_vars
 
 \* sanity: the mapping loses nothing (it is injective on the enumerated option records)
-Injective == \A a, b \in Variations \cup {Base} : a # b => MapOptions(a, FALSE, "none", <<"p">>) # MapOptions(b, FALSE, "none", <<"p">>)
+\* (... on everything but the C++-only member, which it must ignore)
+Injective == \A a, b \in Variations \cup {Base} : [a EXCEPT !.tmo = 0] # [b EXCEPT !.tmo = 0] => MapOptions(a, FALSE, "none", <<"p">>) # MapOptions(b, FALSE, "none", <<"p">>)
 =============================================================================
